@@ -144,9 +144,13 @@ class Explorer:
     def __init__(self, prog, inline=None, summaries=None, max_depth=4, max_paths=200000,
                  effects=None, distinct_roots=True, loop_bound=2, on_unknown_call=None,
                  nondet_fields=(), field_values=None, merge=False, on_call=None, on_load=None,
-                 symbolic_roots=(), symbolic_ranges=None):
+                 symbolic_roots=(), symbolic_ranges=None, auto_inline=True, opaque=()):
         self.prog = prog
         self.inline = inline or (lambda name, fn: False)
+        # a static function of the caller's own file that the rule neither summarises nor declares opaque is
+        # interpreted, not havocked: extracting a helper out of an analysed function must not change a verdict
+        self.auto_inline = auto_inline
+        self.opaque = set(opaque)
         self.summaries = summaries or {}
         self.max_depth = max_depth
         self.max_paths = max_paths
@@ -172,6 +176,7 @@ class Explorer:
         # are explored once; events go to self.event_log instead of per-path
         # traces (for rules that need the set of effects, not their order)
         self.merge = merge
+        self._pending_dies = []
         self.event_log = []
         self._span = {}
 
@@ -432,7 +437,12 @@ class Explorer:
                 n = f.nodes[e]
                 k = n["k"]
                 if k == "CallExpr":
+                    self._pending_dies = []
                     res = self._call(f, fid, e, st, depth)
+                    for od in self._pending_dies:
+                        self.paths += 1
+                        outs.append(Outcome("die", None, od.store, od.events, st.decisions + od.decisions, od.cons))
+                    self._pending_dies = []
                     if res is None:
                         # no-return callee
                         self.paths += 1
@@ -1109,13 +1119,17 @@ class Explorer:
             return None
         if d is not None and (d.noreturn or d.declared_noreturn):
             return None
-        if d is not None and depth < self.max_depth and self.inline(cal, d):
+        auto = (d is not None and self.auto_inline and d.static and d.file == f.file and cal not in self.opaque
+                and not d.file.endswith((".h",)) and depth < self.max_depth + 2)
+        if d is not None and ((depth < self.max_depth and self.inline(cal, d)) or auto):
             outs = self.run(d, args, st.store,
-                            st.events if self.merge else st.events + (("enter", cal, tuple(args), f.key, e),),
+                            st.events if self.merge else st.events + (ev, ("enter", cal, tuple(args), f.key, e)),
                             depth + 1, st.cons)
             res = []
             for o in outs:
                 if o.kind == "die":
+                    # the callee aborts the program on this path: an outcome of the caller too
+                    self._pending_dies.append(o)
                     continue
                 res.append((o.ret if o.ret is not None else TOP, o.store,
                             o.events if self.merge else o.events + (("leave", cal, o.ret),), o.cons))
